@@ -137,6 +137,12 @@ func Seeds() []string {
 	}
 	add(Obj("Polygon", `"coordinates":`+list([]string{list(RingPts(5, 3, true, 0)), list(RingPts(4, 3, true, 1))}), members[2]))
 	add(Obj("Polygon", `"coordinates":[[[0,0],[4,0],[4,4],[0,4],[0,0]]]`)) // perfect box
+	// two holes with z, and with z/m: extra ordinates are indexed across rings
+	add(Obj("Polygon", `"coordinates":[[[0,0,1],[9,0,2],[9,9,3],[0,9,4],[0,0,1]],[[1,1,11],[2,1,12],[2,2,13],[1,1,11]],[[5,5,21],[6,5,22],[6,6,23],[5,5,21]]]`))
+	add(Obj("Polygon", `"coordinates":[[[0,0,1,-1],[9,0,2,-2],[9,9,3,-3],[0,0,1,-1]],[[1,1,11,5],[2,1,12,6],[2,2,13,7],[1,1,11,5]],[[5,5,21,8],[6,5,22,9],[6,6,23,10],[5,5,21,8]]]`))
+	add(Obj("MultiPolygon", `"coordinates":[[[[0,0],[9,0],[9,9],[0,9],[0,0]],[[1,1],[2,1],[2,2],[1,1]]],[[[10,10],[14,10],[14,14],[10,10]],[[11,11],[13,11],[13,12],[11,11]],[[11,12.5],[12,12.5],[12,13],[11,12.5]]]]`))
+	add(Obj("MultiPolygon", `"coordinates":[[[[0,0,1],[9,0,2],[9,9,3],[0,0,1]],[[1,1,4],[2,1,5],[2,2,6],[1,1,4]],[[5,4,7],[6,4,8],[6,5,9],[5,4,7]]],[[[10,10],[14,10],[14,14],[10,10]]]]`))
+	add(Obj("MultiLineString", `"coordinates":[[[0,0,1],[1,1,2]],[[5,5,3],[6,6,4],[7,5,5]],[[8,8],[9,9]]]`))
 	for n := 0; n <= 2; n++ {
 		var pts, lines, polys []string
 		for i := 0; i < n; i++ {
